@@ -6,6 +6,7 @@ executing, Done+Failed never decreases, the total equals the number of non-phony
 equals the number of successful completions.  Engine K: StateCounts::add over symbolic counters (no wrap).
 """
 from checks import schedlib as S
+from checks import runlib as R
 from lib.kcheck import run_k
 
 LEVEL = 'model_checking'
@@ -20,6 +21,7 @@ def run(ctx, out):
             if f.name.startswith('two steps'):
                 f.roles = 'ordval'
     S.run_check(ctx, out, 'C19', fams + S.pool_families(ctx.tier)[:1], {'C19'}, outcomes=('Success', 'Failure'))
+    R.run_run(ctx, out, 'C19', {'C19'})
     ks = run_k(ctx, out, ['work::verif_kani::statecounts_step'], timeout=600, jobs=1)
     out.coverage.update({
         'kani_harnesses': ks,
